@@ -3,6 +3,7 @@
 package main
 
 import (
+	"time"
 	"bytes"
 	"fmt"
 	"math"
@@ -217,7 +218,13 @@ func (c *numCollector) VisitBefore(n ast.Node) (ast.Visitor, ast.Node) {
 			c.out["f"+fbits(b)] = hx(strconv.FormatFloat(b, 'g', -1, 64))
 		}
 	case *ast.DelStmt:
-		c.out[fmt.Sprintf("d%d", int64(v.Expiry))] = hx(v.Expiry.String())
+		// the form the lexer reads back: Duration.String from a millisecond up (h, m, s, ms), a
+		// fraction of a second below (the lexer knows neither µs nor ns)
+		ds := v.Expiry.String()
+		if v.Expiry < time.Millisecond {
+			ds = strings.TrimRight(fmt.Sprintf("0.%09d", int64(v.Expiry)), "0") + "s"
+		}
+		c.out[fmt.Sprintf("d%d", int64(v.Expiry))] = hx(ds)
 		ast.Walk(c, v.N)
 	}
 	return c, n
@@ -277,6 +284,15 @@ var c23Programs = []string{
 	"gauge g\n/^(\\d+)$/ {\n  g = $1 - -1\n}\n",
 	"gauge f\n/^(\\d+\\.\\d+)$/ {\n  f = $1 * 1e-7 + 2.50\n}\n",
 	"counter \"quoted-name\"\n",
+	// label keys that were written as strings because they are no identifiers, and expiries below
+	// a millisecond
+	"counter foo by \"a limit 5\"\n/(x)/ {\n  foo[$1]++\n}\n",
+	"counter foo by \"a, b\"\n/(x)/ {\n  foo[$1]++\n}\n",
+	"counter foo by \"limit\", b, \"len\", \"_u\", \"content-type\", \"http.status\"\n/(x)/ {\n  foo[$1][$1][$1][$1][$1][$1]++\n}\n",
+	"counter foo by a\n/(x)/ {\n  foo[$1]++\n  del foo[$1] after 0.0000015s\n}\n",
+	"counter foo by a\n/(x)/ {\n  foo[$1]++\n  del foo[$1] after 0.000000001s\n}\n",
+	"counter foo by a\n/(x)/ {\n  foo[$1]++\n  del foo[$1] after 0.000999999s\n}\n",
+	"counter foo by a\n/(x)/ {\n  foo[$1]++\n  del foo[$1] after 1.0000015s\n}\n",
 	// backslashes in string literals and exported names: at the end, doubled, before a quote
 	"text t\n/x/ {\n  t = \"C:\\\\logs\\\\\"\n}\n",
 	"text t\n/x/ {\n  t = \"\\\\\\\\host\\\\share\"\n}\n",
